@@ -330,6 +330,16 @@ class Engine:
                 for e in ev:
                     if "val" in e:
                         return I(int(e["val"]), ty)
+                    if "bytes" in e and (e.get("ty") or "").startswith("[u8;"):
+                        return ("constref", c["def"])
+            if not args:
+                # any other crate-local const (a lookup table of enum values, a reference to a byte string): its initialiser,
+                # interpreted like a promoted constant
+                v = self.const_body_value(c["def"])
+                if v is not None:
+                    return v
+            if ev and not args:
+                for e in ev:
                     if "bytes" in e:
                         return ("constref", c["def"])
             text = c["text"]
@@ -347,6 +357,24 @@ class Engine:
             return ("cg", c["tyconst"])
         # zero-sized values such as PhantomData
         return ("zst", c["text"])
+
+    def const_body_value(self, path):
+        """value of a non-generic crate-local `const` item, by interpreting its initialiser (one path, no panics, no unknowns)"""
+        cache = self.__dict__.setdefault("_constvals", {})
+        if path in cache:
+            return cache[path]
+        cache[path] = None
+        bs = [b for b in self.by_path.get(path, []) if b["kind"].startswith("Const") and not _tygens_of(b)]
+        if len(bs) == 1:
+            try:
+                outs = Analysis(self, InlineConst()).run(bs[0], [])
+            except Budget:
+                outs = []
+            rets = [o for o in outs if o.end == "return"]
+            if len(rets) == 1 and len(outs) == 1 and not rets[0].guards and \
+                    not contains(rets[0].ret, lambda t: t[0] in ("unk", "uninit", "call", "index", "ac")):
+                cache[path] = rets[0].ret
+        return cache[path]
 
     def promoted_value(self, owner, idx, args):
         """evaluate a promoted constant of `owner` (a tiny straight-line body)"""
@@ -462,18 +490,23 @@ class Frame:
                 else:
                     cur = ("deref", v)
             elif k == "field":
-                if cur[0] in ("local", "lfield", "ldowncast"):
+                if cur[0] in ("local", "lfield", "ldowncast", "lindex"):
                     cur = ("lfield", cur, e["i"], e.get("name"), e.get("ty"))
                 else:
                     cur = ("field", cur, e["i"], e.get("name"), e.get("ty"))
             elif k == "downcast":
-                if cur[0] in ("local", "lfield", "ldowncast"):
+                if cur[0] in ("local", "lfield", "ldowncast", "lindex"):
                     cur = ("ldowncast", cur, e["v"], e.get("name"))
                 else:
                     cur = ("downcast", cur, e["v"], e.get("name"))
             elif k == "index":
                 idx = self.env.get(e["l"], ("unk", "idx"))
-                cur = ("index", self.read_lv(cur) if cur[0] in ("local", "lfield", "ldowncast") else cur, idx)
+                if cur[0] in ("local", "lfield", "ldowncast", "lindex") and is_int(idx):
+                    bv = self.read_lv(cur)
+                    if isinstance(bv, tuple) and bv[0] == "array" and 0 <= idx[1] < len(bv[1]):
+                        cur = ("lindex", cur, idx[1])      # an element of a local array of known contents
+                        continue
+                cur = ("index", self.read_lv(cur) if cur[0] in ("local", "lfield", "ldowncast", "lindex") else cur, idx)
             else:
                 cur = ("proj", cur, str(e))
         return cur
@@ -499,6 +532,11 @@ class Frame:
             if isinstance(b, tuple) and b[0] == "agg":
                 return b
             return ("downcast", b, lv[2], lv[3])
+        if k == "lindex":
+            b = self.read_lv(lv[1])
+            if isinstance(b, tuple) and b[0] == "array" and lv[2] < len(b[1]):
+                return b[1][lv[2]]
+            return self.index_val(b, I(lv[2], "usize"))
         if k == "index":
             base, idx = lv[1], lv[2]
             if lv in self.heap:
@@ -526,6 +564,8 @@ class Frame:
             for e in self.eng.evals.get(base[1], []):
                 if "bytes" in e and e["ty"].startswith("[u8;"):
                     return I(e["bytes"][idx[1]], "u8")
+        if isinstance(base, tuple) and base[0] == "mem" and is_int(idx) and re.match(r"^&?('\w+ )?\[u8(; \d+)?\]$", base[2] or "") and 0 <= idx[1] < len(base[1]):
+            return I(base[1][idx[1]], "u8")        # a byte-string literal: b"ACGT"[i]
         return ("index", base, idx)
 
     def write_lv(self, lv, val, path):
@@ -562,6 +602,15 @@ class Frame:
             return
         if k == "ldowncast":
             self.write_lv(lv[1], val, path)
+            return
+        if k == "lindex":
+            base = self.read_lv(lv[1])
+            if isinstance(base, tuple) and base[0] == "array" and lv[2] < len(base[1]):
+                ops = list(base[1])
+                ops[lv[2]] = val
+                self.write_lv(lv[1], ("array", tuple(ops)), path)
+            else:
+                self.write_lv(lv[1], ("upd", base, lv[2], val), path)
             return
         # non-local memory
         self.heap[lv] = val
@@ -696,6 +745,13 @@ class Frame:
                 return ("closure", rv["closure"], rv.get("closure_id"), ops)
             return ("aggother", rv.get("text"), ops)
         if k == "repeat":
+            n = rv["n"]
+            try:
+                n = int(n)
+            except (TypeError, ValueError):
+                n = None
+            if n is not None and 0 <= n <= 4096:
+                return ("array", (self.operand(rv["op"]),) * n)
             return ("repeat", self.operand(rv["op"]), rv["n"])
         return ("unk", "rvalue:" + k)
 
@@ -1182,6 +1238,7 @@ class Analysis:
     OPT_RE = re.compile(r"^std::option::Option::<[^>]*>::(\w+)$")
     RES_RE = re.compile(r"^std::result::Result::<.*>::(\w+)$")
     BOOL_RE = re.compile(r"^(?:core|std)::bool::<impl bool>::(\w+)$")
+    CHK_RE = re.compile(r"^(?:core|std)::num::<impl (?:u8|u16|u32|u64|u128|usize)>::checked_sub$")
 
     def _fork_std(self, frame, t, ev, path, bb):
         """Option / Result / bool combinators on symbolic values, presented as the `match` they abbreviate
@@ -1248,6 +1305,11 @@ class Analysis:
                 "then_some": [(yes, ("val", _some(a[1]) if len(a) > 1 else None)), (no, ("val", NONE))],
                 "then": [(yes, ("clo", a[1] if len(a) > 1 else None, [], _some)), (no, ("val", NONE))],
             }.get(n)
+        m = self.CHK_RE.match(d) if alts is None else None
+        if m and len(a) == 2 and not (is_int(a[0]) and is_int(a[1])):
+            # a.checked_sub(b) on unsigned integers: Some(a - b) exactly when a >= b
+            cnd = ("bin", "Ge", a[0], a[1])
+            alts = [((cnd, ("==", True)), ("val", _some(("bin", "Sub", a[0], a[1])))), ((cnd, ("==", False)), ("val", NONE))]
         if alts is None and re.match(r"^std::collections::hash_map::Entry::<.*>::(and_modify|or_insert_with|or_insert|or_default)$", d) and a:
             return self._fork_entry(frame, t, ev, path, bb, d.split("::")[-1])
         if not alts:
@@ -1390,6 +1452,11 @@ class Analysis:
                     if b.get("impl") and b["impl"].get("self_ty") == f.get("resolved_impl_self"):
                         return b
                 return bs[0]
+        if f.get("def") == "std::convert::Into::into" and len(f.get("args") or []) == 2:
+            # the blanket `impl<T, U: From<T>> Into<U> for T` is `U::from(self)`: a crate-local, non-generic From impl is its body
+            bs = self.eng.by_path.get("<%s as std::convert::From<%s>>::from" % (f["args"][1], f["args"][0]))
+            if bs and len(bs) == 1 and not bs[0].get("generics"):
+                return bs[0]
         return None
 
 
@@ -1402,6 +1469,16 @@ class Policy:
 
     def model(self, an, frame, ev, path):
         return std_model(an, frame, ev, path)
+
+
+class InlineConst(Policy):
+    """initialisers of consts: const fns of the crate are evaluated"""
+    def inline(self, callee, body, depth):
+        return True
+
+
+def _tygens_of(b):
+    return [g for g in (b.get("generics") or []) if not g.startswith("'") and not g.startswith("<")]
 
 
 def _unref(frame, a):
@@ -1463,6 +1540,53 @@ def std_model(an, frame, ev, path):
     r = _option_rows(an, frame, ev, path, d, a)
     if r is not None:
         return r
+    if d in ("std::array::from_fn", "core::array::from_fn") and len(f.get("args") or []) >= 2 and str(f["args"][1]).isdigit() and len(a) == 1:
+        # [f(0), f(1), .., f(N-1)] for a literal N: the array a table initialiser writes element by element
+        n = int(f["args"][1])
+        clo = a[0]
+        if n <= 256 and isinstance(clo, tuple) and clo[0] == "closure":
+            els = []
+            for i in range(n):
+                r = _call_closure(an, frame, clo, [I(i, "usize")], path)
+                if r is None or r[0] == "PANIC":
+                    els = None
+                    break
+                els.append(r)
+            if els is not None:
+                return ("array", tuple(els))
+    m = re.match(r"^(?:core|std)::slice::<impl \[\w+\]>::contains$", d)
+    if m and len(a) == 2:
+        # membership in a slice of known integers (`b"ACGTN".contains(&c)`)
+        hay = a[0]
+        while isinstance(hay, tuple) and hay[0] == "cast" and hay[1] == "PointerCoercion":
+            hay = hay[2]
+        hay = _unref(frame, hay) if isinstance(hay, tuple) and hay[0] == "ref" else hay
+        x = _unref(frame, a[1]) if isinstance(a[1], tuple) and a[1][0] == "ref" else None
+        vals = None
+        if isinstance(hay, tuple) and hay[0] == "mem" and re.match(r"^&?('\w+ )?\[u8(; \d+)?\]$", hay[2] or ""):
+            vals = list(hay[1])
+        elif isinstance(hay, tuple) and hay[0] == "array" and all(is_int(v) for v in hay[1]):
+            vals = [v[1] for v in hay[1]]
+        if vals is not None and is_int(x):
+            return I(1 if x[1] in vals else 0, "bool")
+    # the `?` operator on known values: Try::branch / FromResidual::from_residual of Option and Result
+    if d == "std::ops::Try::branch" and st and a:
+        v = a[0]
+        CF = lambda i, n, x: ("agg", "std::ops::ControlFlow", i, n, (x,))
+        if st.startswith("std::option::Option<") and _is_opt(v):
+            return CF(0, "Continue", v[4][0]) if v[3] == "Some" else CF(1, "Break", NONE)
+        if st.startswith("std::result::Result<") and isinstance(v, tuple) and v[0] == "agg" and v[1] == "std::result::Result":
+            return CF(0, "Continue", v[4][0]) if v[3] == "Ok" else CF(1, "Break", v)
+    if d == "std::ops::FromResidual::from_residual" and st and a:
+        if st.startswith("std::option::Option<"):
+            return NONE          # the residual type Option<Infallible> has one value
+        v = a[0]
+        if st.startswith("std::result::Result<") and isinstance(v, tuple) and v[0] == "agg" and v[1] == "std::result::Result" and v[3] == "Err":
+            rt = f["args"][0] if f.get("args") else ""
+            e_self = _last_targ(st)
+            e_res = _last_targ(rt)
+            if e_self is not None and e_self == e_res:       # `From<E> for E` is the identity
+                return v
     if d == "std::ptr::from_ref":
         return a[0]
     if st and st.startswith("std::marker::PhantomData<"):
@@ -1475,6 +1599,10 @@ def std_model(an, frame, ev, path):
             return ("agg", "std::option::Option", 1, "Some", (("agg", "std::cmp::Ordering", 1, "Equal", ()),))
     if re.match(r"^(core|std)::num::<impl (usize|u8|u32|u64)>::(saturating_sub|saturating_add|wrapping_sub|wrapping_add)$", d) and is_int(a[1]) and a[1][1] == 0:
         return a[0]
+    m = re.match(r"^(?:core|std)::num::<impl (u8|u16|u32|u64|u128|usize)>::(checked_sub)$", d)
+    if m and len(a) == 2 and all(is_int(x) for x in a):
+        x, y = a[0][1], a[1][1]
+        return _some(I(x - y, m.group(1))) if x >= y else NONE
     m = re.match(r"^(?:core|std)::num::<impl (u8|u16|u32|u64|u128|usize)>::(\w+)$", d)
     if m and a and all(is_int(x) for x in a):
         # integer methods on known values (constant folding of the codec tables must not depend on how a bit trick is spelled)
@@ -1613,6 +1741,26 @@ def _call_closure(an, frame, clo, args, path):
         path.calls.extend(rets[0].calls)
         return rets[0].ret
     return None
+
+
+def _last_targ(ty):
+    """last generic argument of a type text `P<.., X>` (None if there is none)"""
+    if not ty or not ty.endswith(">") or "<" not in ty:
+        return None
+    inner = ty[ty.index("<") + 1:-1]
+    depth, cur, parts = 0, "", []
+    for ch in inner:
+        if ch in "<([":
+            depth += 1
+        elif ch in ">)]":
+            depth -= 1
+        if ch == "," and depth == 0:
+            parts.append(cur.strip())
+            cur = ""
+        else:
+            cur += ch
+    parts.append(cur.strip())
+    return parts[-1]
 
 
 def _option_rows(an, frame, ev, path, d, a):
